@@ -42,6 +42,7 @@ type tenv struct {
 	dirArgs                                           []mArg
 	inDirective                                       bool // inside a Directive node (known or not)
 	dcInput                                           bool // InputType is don't-care below (see README)
+	noRoot                                            bool // inside an operation whose root type the schema does not have
 }
 
 type typeComputer struct {
@@ -49,10 +50,11 @@ type typeComputer struct {
 	out      map[ast.Node]*tsnap
 	dc       map[ast.Node]bool // InputType/Argument not compared at this node
 	unkDirOf map[ast.Node]bool // node is (inside) an argument of a directive the schema does not define
+	noRoot   map[ast.Node]bool // node is inside an operation whose root type the schema does not have
 }
 
 func computeTypes(s *mSchema, root ast.Node) *typeComputer {
-	c := &typeComputer{s: s, out: map[ast.Node]*tsnap{}, dc: map[ast.Node]bool{}, unkDirOf: map[ast.Node]bool{}}
+	c := &typeComputer{s: s, out: map[ast.Node]*tsnap{}, dc: map[ast.Node]bool{}, unkDirOf: map[ast.Node]bool{}, noRoot: map[ast.Node]bool{}}
 	c.visit(root, tenv{}, false)
 	return c
 }
@@ -142,6 +144,7 @@ func (c *typeComputer) visit(n ast.Node, e tenv, unkDir bool) {
 		case ast.OperationTypeSubscription:
 			e.typ = c.s.Subscription
 		}
+		e.noRoot = e.typ == ""
 	case *ast.SelectionSet:
 		e.parent = ""
 		if nm := namedOf(e.typ); nm != "" && c.composite(nm) {
@@ -221,14 +224,13 @@ func (c *typeComputer) visit(n ast.Node, e tenv, unkDir bool) {
 	if unkDir {
 		c.unkDirOf[n] = true
 	}
-	below := e
-	switch n.(type) {
-	case *ast.Directive, *ast.Argument:
-	default:
-		// Directive and Argument are single slots in the library that are
-		// cleared on leave; in the reference they simply do not extend beyond
-		// the node because the environment is passed by value.
+	if e.noRoot {
+		c.noRoot[n] = true
 	}
+	// Directive and Argument are single slots in the library that are cleared
+	// on leave; here they simply do not extend beyond the node because the
+	// environment is passed by value.
+	below := e
 	for _, ch := range walk.Children(n, nil) {
 		if !ch.IsList {
 			if ch.Node != nil {
